@@ -688,6 +688,9 @@ func (c *Client) onResponse(f *Frame) {
 	if r.Action == "subscribe" || r.Action == "get" {
 		s.oracleAfresh(c, r, f)
 	}
+	if !r.Valid && r.Action != "version" {
+		s.oracleInvalidRequest(c, r, f)
+	}
 	switch r.Action {
 	case "version":
 		if f.Error == nil {
